@@ -27,9 +27,26 @@ for sid in sorted(os.listdir(os.path.join(V, "seeded"))):
         out += " - " + m["miss_reason"]
     rows.append("| %s | %s | %s | %s | %s |" % (sid, m["property"], m["change"].replace("|", "\\|"), m["needs_to_manifest"].replace("|", "\\|"), out.replace("|", "\\|")))
 seeds = "\n".join(rows)
+# per-property status from props/*.json and the last evidence written by the checks
+claimed = json.load(open(os.path.join(V, "props", "CLAIMED.json")))
+rows = ["| property | units (instances in the last run) | obligations discharged / generated | bounded stand-ins (not proof) | links not covered |", "|---|---|---|---|---|"]
+for pid in claimed:
+    pd = json.load(open(os.path.join(V, "props", pid + ".json")))
+    ep = os.path.join(V, "evidence", pid + ".json")
+    ev = json.load(open(ep)) if os.path.exists(ep) else None
+    units = {}
+    if ev:
+        for u in ev["coverage"]["units"]:
+            units[u["unit"]] = units.get(u["unit"], 0) + 1
+    ul = ", ".join("%s (%d)" % (k, v) for k, v in sorted(units.items())) or ", ".join(u["unit"] for u in pd["units"])
+    ob = "%d / %d (%s tier, %.0f s)" % (ev["coverage"]["discharged"], ev["coverage"]["obligations"], ev["tier"], ev["wall_s"]) if ev else "-"
+    bd = ", ".join(b["name"] for b in pd.get("bounded", [])) or "-"
+    nc = "; ".join(x[:110] for x in pd.get("not_covered", [])[:6])
+    rows.append("| %s | %s | %s | %s | %s |" % (pid, ul, ob, bd, nc.replace("|", "\\|")))
+status = "\n".join(rows)
 p = os.path.join(V, "DESIGN.md")
 s = open(p).read()
-for name, txt in (("FINDINGS", findings), ("SEEDS", seeds)):
+for name, txt in (("FINDINGS", findings), ("SEEDS", seeds), ("STATUS", status)):
     b, e = "<!-- BEGIN %s -->" % name, "<!-- END %s -->" % name
     if b in s:
         s = s[:s.index(b) + len(b)] + "\n" + txt + "\n" + s[s.index(e):]
